@@ -100,7 +100,8 @@ def _directed(draw, deep):
     # hide
     hide = draw(st.sampled_from(["none", "select", "select", "drop", "drop", "overwrite", "rename"]))
     t = g.t(var)
-    live = [(n, c) for n, c in new_cols if (n, c) in t.visible and c not in t.group]
+    # (K03, open finding: the columns of an ungrouped summarize are not hidden by the hand-written steps)
+    live = [(n, c) for n, c in new_cols if (n, c) in t.visible and c not in t.group and c not in t.agg_cols]
     if live and hide != "none" and len(t.visible) > len(live):
         if hide in ("select", "drop"):
             names = {n for n, _ in live}
